@@ -357,3 +357,9 @@ def unit_test(case):
         f"lib = bibtexparser.parse_string({text!r})\n"
         "print([type(b).__name__ for b in lib.blocks], sorted(lib.entries_dict), sorted(lib.strings_dict))\n"
     )
+
+
+def ENV_SHARDS(tier):
+    """The broad, cheap families: run again in a fresh interpreter per environment (engine.run_environments)."""
+    return [s for s in shards('quick') if s[0] in ("short", "wide") or (s[0] == "first" and s[1] == s[2] and s[1] < 8)]
+
